@@ -5,66 +5,159 @@ package context
 // Contracts for govc (contract-based deductive verification; see /verif/DESIGN.md).
 // This file holds only comments and is compiled only with -tags verif.
 //
-// C20, the "never earlier" half (DESIGN.md §6 C20, §3.4): the watcher goroutine calls cancel() only when every
-// member tracked at its last look at the pool has ended, or Cancel was called — for all interleavings of
-// lock-respecting goroutines. chdone[c] is the monotone ghost "channel c is closed" (channels are never
-// reopened, so a positive fact stays true whatever other goroutines do). The rely of p.lock is what every
-// writer section (Add, Cancel) is proved to guarantee and what the watcher assumes while it has dropped the
-// read lock: the member list only grows, until Cancel empties it for good.
-// Eventual cancellation and the termination of the watcher are liveness and are not covered.
+// C20, the "never earlier" half (DESIGN.md §6 C20, §3.4). The chain of obligations, sentence by sentence:
+//   "never while a member - one passed at creation ... - has not ended":
+//        [C20.new.tracked]   every context passed to NewPool has ended or its Done channel is in the slice;
+//        [C20.new.root]      the pool's context is derived from a context that never ends (so it ends only through its
+//                            own cancel function);
+//        [C20.new.nocancel]  NewPool itself never calls a cancel function;
+//        pre:go …            the watcher's preconditions are obligations of NewPool at the go statement;
+//        [C20.watch.notearly] every call of a cancel function in the watcher happens when every member tracked at its
+//                            last look at the pool (label E, the deferred RUnlock) has ended, or Cancel was called —
+//                            for all interleavings of lock-respecting goroutines;
+//   "or added while the pool was still live and some member was still live":
+//        [C20.add.tracked]   if neither the pool's own Done channel nor `closed` was closed at the instant of Add's
+//                            select (label S), the Done channel of *the offered context* is appended, the rest kept;
+//        [C20.rely]          proved of both writer sections (Add, Cancel), assumed by the watcher across its wait;
+//   "Contexts offered after the pool ended are ignored":  [C20.add.ignored]
+//   "or when Cancel is called": [C20.cancel] (closed is closed, slice dropped — unconditionally), [C20.cancel.once]
+//   "Size reports the members being tracked (zero after Cancel)": [C20.size], [C20.size.cancelled]
+// Composition (paper step, audit §3.6): a live member A is in the slice ([C20.new.tracked] / [C20.add.tracked]); the
+// watcher's last look E sees A ended, so E is after the critical section of the Add that appended A (mutual exclusion)
+// and sees the appended element ([C20.rely]: prefix kept); hence cancel() implies every such member has ended.
+//
+// Channel semantics, stated once and repeated verbatim in every function ("CHAN" block; at-clauses are per function):
+//   chdone[c] is the monotone ghost "channel c is closed". Channels are never reopened, so a positive fact stays true
+//   whatever other goroutines do; the ghost is therefore not havocked at scheduling points. A *negative* fact
+//   (!chdone[c]) is only introduced (a) for the channel NewPool has just made and not yet shared, (b) at Add's select
+//   (label S) and denotes that instant; contracts refer to it as at(S, …).
+//     at every select assume  (res0 >= 0 && !selsend) ==> chdone[selchan]   a receive case completes only on a closed
+//         channel. True for channels that are never sent on: Done channels (libspec assume-text) and Pool.closed
+//         ([C20.chan.nosend]: no function of this package sends on any channel).
+//     at every recv assume chdone[arg0]                                       the same for a plain receive
+//     at every before close assert [C20.chan.closeonce] !chdone[arg0]         closing a closed channel panics
+//     at every close ghost chdone = update(chdone, arg0, true)
+//     at every before send assert [C20.chan.nosend] false
+//     at every select assert [C20.chan.nosend] forall c :: !selhassend(c)      (send cases of a select)
+//   The operands (selchan, arg<i>) are those of the statement in the code, not names typed by hand.
+//   Only Add needs the converse for its default case (Go spec: default is taken only if no case can proceed, and a
+//   receive from a closed channel can always proceed), for whatever receive cases the select has:
+//     at select#0 assume res0 == -1 ==> (forall c :: selhas(c) ==> !chdone[c])
+//   It is not stated in NewPool's loop, where a negative fact would wrongly persist from one iteration to the next
+//   (the same context may be passed twice and end in between); NewPool needs only the positive direction.
+//
+// Not covered: eventual cancellation and the termination of the watcher (liveness). [C20.watch.waits] is the safety
+// part of it: whenever the watcher blocks, it blocks on exactly {pool[i], closed} for an i < len(pool) read under the lock.
+// Residual trust: the cancel function is a local of NewPool captured by the watcher only (it is not stored or passed on;
+// no contract clause can say "does not escape"). [C20.fields.immutable]: no function other than NewPool stores to
+// Pool.closed or Pool.Context; [C20.new.closedfresh]: the channel stored in `closed` was made by NewPool itself.
+// Documented window (audit D1, not a violation of the statement): between the watcher's last RUnlock and cancel() an
+// Add finds neither channel closed and appends a context that nobody will wait for; Size counts it.
 
 //@ ghost var chdone [int]bool
 
 //@ type Pool
 //@   lock lock protects pool
 //@   lockinv lock [C20.inv.cancelled] chdone[self.closed] ==> self.pool == nil
+//@   lockinv lock [C20.inv.nil] self.pool == nil ==> chdone[self.closed]
 //@   rely lock [C20.rely] (chdone[self.closed] && self.pool == nil) || (len(old(self.pool)) <= len(self.pool) && (forall j :: 0 <= j && j < len(old(self.pool)) ==> self.pool[j] == old(self.pool[j])))
 
 //@ func NewPool$1
 //@   tags C20
 //@   opt locks=release
+//@   opt go=frame-only
+//@   modifies nothing
 //@   requires p != nil && heldr(p.lock)
-//@   requires chdone[p.closed] ==> p.pool == nil
+//@   requires chdone[p.closed] <==> p.pool == nil
 //@   loop 0 invariant p == old(p) && heldr(p.lock) && 0 <= i
 //@   loop 0 invariant [C20.watch.inv] chdone[p.closed] || (i <= len(p.pool) && (forall j :: 0 <= j && j < i ==> chdone[p.pool[j]]))
-//@   at select#0 assume (res0 == 0 ==> chdone[ch]) && (res0 == 1 ==> chdone[p.closed])
+//@   at before call RUnlock#1 label W
+//@   at select#0 assert [C20.watch.waits] at(W, i < len(p.pool)) && arg0 == at(W, p.pool[i]) && arg1 == p.closed
 //@   at before call RUnlock#0 label E
-//@   at before call CancelFunc#0 assert [C20.watch.notearly] chdone[p.closed] || (forall j :: 0 <= j && j < len(at(E, p.pool)) ==> chdone[at(E, p.pool[j])])
-//@   at before call CancelFunc#0 assert [C20.watch.unlocked] !held(p.lock)
+//@   at every before call CancelFunc assert [C20.watch.notearly] chdone[p.closed] || (forall j :: 0 <= j && j < len(at(E, p.pool)) ==> chdone[at(E, p.pool[j])])
+//@   at every before call CancelFunc assert [C20.watch.unlocked] !held(p.lock)
+//@   at every select assume (res0 >= 0 && !selsend) ==> chdone[selchan]
+//@   at every recv assume chdone[arg0]
+//@   at every before close assert [C20.chan.closeonce] !chdone[arg0]
+//@   at every close ghost chdone = update(chdone, arg0, true)
+//@   at every before send assert [C20.chan.nosend] false
+//@   at every select assert [C20.chan.nosend] forall c :: !selhassend(c)
+//@   at every store closed assert [C20.fields.immutable] false
+//@   at every store Context assert [C20.fields.immutable] false
 
 //@ func (*Pool).Add
 //@   tags C20
 //@   requires p != nil && p.Context != nil && ctx != nil
 //@   ensures result == p
-//@   ensures [C20.add.ignored] at(L, chdone[p.closed]) ==> at(U, p.pool) == at(L, p.pool)
+//@   ensures [C20.add.ignored] at(S, chdone[p.closed] || chdone[p.Context.donech]) ==> at(U, p.pool) == at(L, p.pool)
 //@   ensures [C20.add.grow] len(at(U, p.pool)) == len(at(L, p.pool)) || len(at(U, p.pool)) == len(at(L, p.pool)) + 1
-//@   ensures [C20.add.tracked] (!chdone[p.closed] && !chdone[call_Done_0_result]) ==>
-//@        (len(at(U, p.pool)) == len(at(L, p.pool)) + 1 && at(U, p.pool[len(p.pool) - 1]) == call_Done_1_result
+//@   ensures [C20.add.tracked] at(S, !chdone[p.closed] && !chdone[p.Context.donech]) ==>
+//@        (len(at(U, p.pool)) == len(at(L, p.pool)) + 1 && at(U, p.pool[len(p.pool) - 1]) == ctx.donech
 //@         && (forall j :: 0 <= j && j < len(at(L, p.pool)) ==> at(U, p.pool[j]) == at(L, p.pool[j])))
-//@   at select#0 assume res0 == -1 <==> (!chdone[p.closed] && !chdone[call_Done_0_result])
 //@   at call Lock#0 label L
+//@   at select#0 label S
 //@   at before call Unlock#0 label U
+//@   at select#0 assume res0 == -1 ==> (forall c :: selhas(c) ==> !chdone[c])
+//@   at every select assume (res0 >= 0 && !selsend) ==> chdone[selchan]
+//@   at every recv assume chdone[arg0]
+//@   at every before close assert [C20.chan.closeonce] !chdone[arg0]
+//@   at every close ghost chdone = update(chdone, arg0, true)
+//@   at every before send assert [C20.chan.nosend] false
+//@   at every select assert [C20.chan.nosend] forall c :: !selhassend(c)
+//@   at every store closed assert [C20.fields.immutable] false
+//@   at every store Context assert [C20.fields.immutable] false
+//@   at every before call CancelFunc assert [C20.add.nocancel] false
 
 //@ func (*Pool).Cancel
 //@   tags C20
 //@   requires p != nil
-//@   ensures [C20.cancel] at(U, p.pool) == nil && (at(L, p.pool) != nil ==> chdone[p.closed])
-//@   at close#0 ghost chdone = update(chdone, p.closed, true)
+//@   ensures [C20.cancel] at(U, p.pool) == nil && chdone[p.closed]
 //@   at call Lock#0 label L
 //@   at before call Unlock#0 label U
+//@   at every select assume (res0 >= 0 && !selsend) ==> chdone[selchan]
+//@   at every recv assume chdone[arg0]
+//@   at every before close assert [C20.chan.closeonce] !chdone[arg0]
+//@   at every close ghost chdone = update(chdone, arg0, true)
+//@   at every before send assert [C20.chan.nosend] false
+//@   at every select assert [C20.chan.nosend] forall c :: !selhassend(c)
+//@   at every store closed assert [C20.fields.immutable] false
+//@   at every store Context assert [C20.fields.immutable] false
+//@   at every before call CancelFunc assert [C20.cancel.nocancel] false
 
 //@ func (*Pool).Size
 //@   tags C20
 //@   requires p != nil
 //@   ensures [C20.size] result == len(at(L, p.pool))
+//@   ensures [C20.size.cancelled] at(L, chdone[p.closed]) ==> result == 0
 //@   at call RLock#0 label L
+//@   at every select assume (res0 >= 0 && !selsend) ==> chdone[selchan]
+//@   at every recv assume chdone[arg0]
+//@   at every before close assert [C20.chan.closeonce] !chdone[arg0]
+//@   at every close ghost chdone = update(chdone, arg0, true)
+//@   at every before send assert [C20.chan.nosend] false
+//@   at every select assert [C20.chan.nosend] forall c :: !selhassend(c)
+//@   at every store closed assert [C20.fields.immutable] false
+//@   at every store Context assert [C20.fields.immutable] false
+//@   at every before call CancelFunc assert [C20.size.nocancel] false
 
 //@ func NewPool
 //@   tags C20 C07
 //@   opt locks=transfer
-//@   opt go=ignore
 //@   requires forall j :: 0 <= j && j < len(ctx) ==> ctx[j] != nil
-//@   ensures [C20.new] result != nil && fresh(result) && heldr(result.lock) && result.pool != nil && !chdone[result.closed]
+//@   ensures [C20.new] result != nil && fresh(result) && result.pool != nil && !chdone[result.closed]
+//@   ensures [C20.new.root] result.Context != nil && result.Context.ctxparent.neverends
+//@   ensures [C20.new.tracked] forall j :: 0 <= j && j < len(ctx) ==> (chdone[ctx[j].donech] || (exists k :: 0 <= k && k < len(result.pool) && result.pool[k] == ctx[j].donech))
 //@   ensures [C20.new.members] len(result.pool) <= len(ctx)
+//@   ensures [C20.new.onlymembers] forall k :: 0 <= k && k < len(result.pool) ==> (exists j :: 0 <= j && j < len(ctx) && result.pool[k] == ctx[j].donech)
 //@   loop 0 invariant p != nil && fresh(p) && p.pool != nil && fresh(p.pool) && len(p.pool) <= rangeindex + 1 && len(p.pool) <= cap(p.pool) && -1 <= rangeindex && rangeindex < len(ctx) && !chdone[p.closed]
+//@   loop 0 invariant [C20.new.tracked.inv] forall j :: 0 <= j && j <= rangeindex ==> (chdone[ctx[j].donech] || (exists k :: 0 <= k && k < len(p.pool) && p.pool[k] == ctx[j].donech))
+//@   loop 0 invariant [C20.new.onlymembers.inv] forall k :: 0 <= k && k < len(p.pool) ==> (exists j :: 0 <= j && j < len(ctx) && p.pool[k] == ctx[j].donech)
+//@   at store closed#0 assert [C20.new.closedfresh] fresh(arg0)
 //@   at store closed#0 ghost chdone = update(chdone, arg0, false)
+//@   at every before call CancelFunc assert [C20.new.nocancel] false
+//@   at every select assume (res0 >= 0 && !selsend) ==> chdone[selchan]
+//@   at every recv assume chdone[arg0]
+//@   at every before close assert [C20.chan.closeonce] !chdone[arg0]
+//@   at every close ghost chdone = update(chdone, arg0, true)
+//@   at every before send assert [C20.chan.nosend] false
+//@   at every select assert [C20.chan.nosend] forall c :: !selhassend(c)
